@@ -253,6 +253,9 @@ class FlexWindow(Strategy):
         # charge/discharge batteries
         min_power = - gc.cur_max_power
         max_power = gc.cur_max_power - gc.get_current_load()
+        if not cur_window:
+            # discharging: do not feed in more than the GC allows
+            max_power = min(max_power, gc.cur_max_power + gc.get_current_load())
 
         window_timesteps = [item for item in timesteps if item["window"] is cur_window]
         new_timesteps = []
